@@ -132,7 +132,7 @@ def step (s : St) (line : String) : St × String :=
             else if kind = "upd" then doOp s db h (.upd keys) true b
             else doOp s db h (.del keys) b false
         | _, _ => (s, "err parse")
-      else if kind = "mrg" || kind = "mrgu" then
+      else if kind = "mrg" || kind = "mrgu" || kind = "pmrg" then
         match (if kind = "mrgu" then parseFlag fl "a=" "1" "0" else parseFlag fl "r=" "d" "0"), parseRows arg with
         | some b, some rows =>
           match s.db with
@@ -140,6 +140,7 @@ def step (s : St) (line : String) : St × String :=
           | some db =>
             if rows.isEmpty || !distinct (rows.map (·.key)) then (s, "err keys")
             else if kind = "mrg" then doOp s db h (.mrg rows) true b
+            else if kind = "pmrg" then doOp s db h (.pmrg rows) false b
             else doOp s db h (.mrg rows) b false
         | _, _ => (s, "err parse")
       else (s, "err parse")
